@@ -16,6 +16,12 @@ package momentum
 //@ ensures[C05] "range" forall kk :: 0 <= kk && kk < len(result) ==> 0 - 1 <= result[kk] && result[kk] <= 1
 //@ ensures[C03] consumed(snapshots) == len(snapshots) && closed(result)
 //@ ensures[C04] forall kk :: 0 <= kk && kk < len(result) ==> hor(result, kk) <= hor(snapshots, kk)
+//@ rel[C18] "price" param lam real
+//@ rel[C18] "price" assume lam > 0 && len(second(snapshots)) == len(snapshots) && (forall k :: 0 <= k && k < len(snapshots) ==> pscaled(second(snapshots)[k], snapshots[k], lam))
+//@ rel[C18] "price" step forall i :: 0 <= i && i < len(snapshots) ==> second(highs)[i] == lam * highs[i] && second(lows)[i] == lam * lows[i]
+//@ rel[C18] "price" use[cond] aoS_pscale(highs, lows, second(highs), second(lows), lam, a.AwesomeOscillator.ShortSma.Period, a.AwesomeOscillator.LongSma.Period, len(snapshots), _)
+//@ rel[C18] "price" use forall i :: mul_cmp(lam, ao[i], 0)
+//@ rel[C18] "price" ensures len(second(result)) == len(result) && (forall k :: 0 <= k && k < len(result) ==> second(result)[k] == result[k])
 
 //@ func RsiStrategy.Compute
 //@ requires r.Rsi.Rma.Period >= 1 && consumed(snapshots) == 0
@@ -46,6 +52,12 @@ package momentum
 //@ ensures[C05] "range" forall kk :: 0 <= kk && kk < len(result) ==> 0 - 1 <= result[kk] && result[kk] <= 1
 //@ ensures[C03] consumed(snapshots) == len(snapshots) && closed(result)
 //@ ensures[C04] forall kk :: 0 <= kk && kk < len(result) ==> hor(result, kk) <= hor(snapshots, kk)
+//@ rel[C18] "price" param lam real
+//@ rel[C18] "price" assume lam > 0 && len(second(snapshots)) == len(snapshots) && (forall k :: 0 <= k && k < len(snapshots) ==> pscaled(second(snapshots)[k], snapshots[k], lam))
+//@ rel[C18] "price" assume forall j :: 0 <= j ==> rmaS(lossS(closings), s.StochasticRsi.Rsi.Rma.Period, j) != 0
+//@ rel[C18] "price" step forall i :: 0 <= i && i < len(snapshots) ==> second(closings)[i] == lam * closings[i]
+//@ rel[C18] "price" use[cond] stochRsiS_pscale(closings, second(closings), lam, s.StochasticRsi.Rsi.Rma.Period, s.StochasticRsi.Min.Period, len(snapshots), _)
+//@ rel[C18] "price" ensures len(second(result)) == len(result) && (forall k :: 0 <= k && k < len(result) ==> second(result)[k] == result[k])
 
 //@ func TripleRsiStrategy.Compute
 //@ requires t.Rsi.Rma.Period >= 1 && t.Sma.Period >= 1 && t.Sma.IdlePeriod() >= t.Rsi.IdlePeriod() && t.DownDays >= 1 && consumed(snapshots) == 0
